@@ -733,11 +733,18 @@ func c14IntSums(c *Ctx, idx int) {
 		first.Sub(first, big.NewInt(0))
 	}
 	k := 3 + r.Intn(38)
+	small := idx%2 == 0 // addends below half a float ulp at 2^63 (512): a float running total absorbs every one of them
+	if small {
+		k = 10 + r.Intn(60)
+	}
 	var vals []*big.Int
 	vals = append(vals, first)
 	var acc int64
 	for i := 0; i < k; i++ {
 		a := int64(1 + r.Intn(2000))
+		if small {
+			a = int64(1 + r.Intn(500))
+		}
 		if acc > short+3000 {
 			a = int64(1 + r.Intn(5))
 		}
